@@ -3,6 +3,7 @@ import PC.Proofs.SupRestart
 import PC.Spec.Pure
 import PC.Proofs.SupArms
 import PC.Spec.SupSpec
+import PC.Proofs.SupFlow
 /-! C02 — restart policy: decision table and back-off (pure part; the loop is in `Sup`). -/
 namespace PC.Props.C02
 open PC.Restart PC.Spec
@@ -174,6 +175,24 @@ example :
     let s := (PC.Sup.runTrace (PC.Sup.init .coarse false [{ policy := .always, maxRestarts := 2 }])
       [.call 0 .runMain, .run 0, .run 1, .exit 0 0, .run 1, .run 1, .exit 0 0, .run 1, .run 1, .exit 0 0, .run 1]).1
     (s.ps 0).restarts = 2 ∧ (s.ps 0).status = .completed := by
+  set_option maxRecDepth 8000 in decide
+
+/-- **Never relaunched under `no` / `exit_on_failure`** (C02, global): in every state the supervisor
+    model passes through - every schedule at either granularity, every sequence of exits, probe
+    results, timeouts and requests, overlapping instances included - an instance of a process whose
+    availability policy is `no` (or unset) or `exit_on_failure` has been launched at most once,
+    whatever its exit codes were. (The goroutine of such an instance is never in the back-off: the
+    only way there is the restart decision, which the translated `isRestartable` refuses.) -/
+theorem never_relaunched_without_restart_policy (g : PC.Sup.Gran) (o : Bool) (cfgs : List PC.Sup.Cfg) {s : PC.Sup.Sys}
+    (hr : PC.Sup.Reach (PC.Sup.init g o cfgs) s) (i : PC.Sup.IId) (hi : i < s.insts.length)
+    (hp : (s.icfg i).policy = .no ∨ (s.icfg i).policy = .exitOnFailure) : (s.inst i).launches ≤ 1 :=
+  PC.Sup.never_relaunched g o cfgs hr.fine i hi (by rcases hp with h | h <;> rw [h] <;> rfl)
+
+-- not vacuous: under `exit_on_failure` a failing command is launched once (and brings the project down)
+example :
+    let s := (PC.Sup.runTrace (PC.Sup.init .coarse false [{ policy := .exitOnFailure }, {}])
+      [.call 0 .runMain, .run 0, .run 1, .run 2, .exit 0 3, .run 1, .run 1]).1
+    (s.inst 0).launches = 1 ∧ (s.ps 0).exit = 3 := by
   set_option maxRecDepth 8000 in decide
 
 end PC.Props.C02
